@@ -32,8 +32,10 @@ def main():
             from sim import runner
             cfg = dict(doc['cfg'])
             cfg['scratch'] = scratch
+            from sim.profiles import OWNERS
             v, w, dig = runner.run_events(doc['events'], cfg,
-                                          runner.load_known())
+                                          runner.load_known(),
+                                          owners=OWNERS.get(doc['property']))
     finally:
         os.chdir(VERIF)
         shutil.rmtree(scratch, ignore_errors=True)
